@@ -66,6 +66,10 @@ func genValue(rng *rand.Rand) ([]byte, string) {
 		s, _ := genWfStream(rng, 3, 200)
 		return s, "database"
 	default:
+		if rng.Intn(12) == 0 {
+			// values around and beyond 4 KiB (buffer sizes of buffered writers and readers)
+			return randBytes(rng, pick(rng, []int{4091, 4092, 4093, 4096, 8192, 20000})), "raw-large"
+		}
 		return randBytes(rng, rng.Intn(300)), "raw"
 	}
 }
@@ -309,6 +313,8 @@ func runC11(c *Ctx) {
 			doRead(rapi, v.Name, *v.GUID, dir, req, nil, true, "absent")
 		case 1:
 			doRead(rapi, v.Name, *v.GUID, dir, req, content[:rng.Intn(4)], false, "short-file")
+			// ... also for a definition that requires no attribute at all
+			doRead(rapi, v.Name, *v.GUID, dir, 0, content[:rng.Intn(4)], false, "short-file/no-required-attributes")
 		}
 	}
 }
